@@ -20,7 +20,7 @@ RULE = ("part D: get_capabilities() against a unit that serves two pages, the re
         "(transmissions at 0,2,4,.. while nothing has arrived; return at the earliest arrival T*<2r with floor(T*/2)+1 "
         "byte-identical transmissions, else TimeoutError at 2r after exactly r) compared on transmission count, virtual return "
         "time and outcome; with r=3 also Device._send_command()==[] and refresh() -> online False on timeout; a quarter of the patterns run with a configured connection lifetime that expires mid-exchange; a quarter with a jump of the host's wall clock (suspend/resume, clock step: -3 s .. +1 h) during the exchange, which the reference model ignores; on V3 a quarter of the patterns with unanswered transmissions have the device emit marker-free bytes instead of staying silent (no response by C04's skipping rule; the reference model is unchanged). an error packet as answer to transmission k ends the exchange with a protocol error after exactly k transmissions, at LAN and device level. Part B "
-        "(exhaustive): every single fault and ordered pair from {drop, drop incl. handshake, error packet, error packet also in reply to the re-authentication handshake, garbage, peer close, peer reset (mid-exchange or while idle), graceful close by the peer while idle (FIN: the transport asks the protocol's eof_received() as asyncio does), an answer followed by the peer's FIN, the unit coming back under a new address while configured by host name, "
+        "(exhaustive): every single fault and ordered pair from {drop, drop incl. handshake, error packet, error packet also in reply to the re-authentication handshake, garbage, peer close, peer reset (mid-exchange or while idle), graceful close by the peer while idle (FIN: the transport asks the protocol's eof_received() as asyncio does), an answer followed by the peer's FIN, an explicit re-authentication that the caller abandons or that times out while the handshake reply is on its way, the unit coming back under a new address while configured by host name, "
         "connect refused, connect hangs, cancel at each protocol phase} x {V2,V3} x {fresh object, established connection}, "
         "followed by a clean exchange immediately or after a pause, with or without a configured connection lifetime (1..60 s), at LAN level or through AirConditioner.refresh() (single-query, or several queries per refresh with energy polling enabled; on V3 the user's single authenticate() call may have been abandoned during the 1 s settle pause after the handshake): faulty exchange ends within contract (frames / "
         "ProtocolError / TimeoutError / cancellation) and the clean exchange returns the device's reply (fresh handshake on V3 "
@@ -33,7 +33,7 @@ TOKEN = hashlib.sha512(b"c08 token").digest()
 KEY = hashlib.sha256(b"c08 key").digest()
 FRAME = bytes.fromhex("aa21ac8d000000000003418100ff03ff000200000000000000000000000003016971")
 DELAYS = [0.05, 1.0, 1.95, 2.05, 3.0, 3.95, 4.05, 6.5]
-FAULTS = ["drop", "drop_hs", "error", "error_hs", "garbage", "close", "reset", "idle_reset", "idle_fin", "answer_fin", "lease", "refuse", "hang", "cancel:connect",
+FAULTS = ["drop", "drop_hs", "error", "error_hs", "garbage", "close", "reset", "idle_reset", "idle_fin", "answer_fin", "lease", "reauth_cancel", "reauth_timeout", "refuse", "hang", "cancel:connect",
           "cancel:hs_wait", "cancel:hs_pause", "cancel:data_wait", "cancel:retransmit"]
 
 
@@ -374,6 +374,35 @@ def check_faults(case: dict):
                 net.listen(leases["ip"], 6444, dev)
                 net.resolver["ac.lan"] = leases["ip"]
                 await asyncio.sleep(0.01)
+            if f in ("reauth_cancel", "reauth_timeout") and version == 3:
+                # the user re-authenticates explicitly (on whatever connection there is) and the unit is slow to answer the handshake:
+                # the caller gives up after 0.5 s (reply on its way: arrives after 1 s), or every attempt times out (the reply to the
+                # last request arrives after the call has ended).  This *is* the faulty exchange.
+                rec = {"fault": f, "alive_before": alive_before}
+                t0 = loop.time()
+                if f == "reauth_cancel":
+                    dev.hs_script = [("genuine", {"delay": 1.0})]
+                    task = asyncio.ensure_future(ac.authenticate(TOKEN, KEY))
+                    await asyncio.sleep(0.5)
+                    task.cancel()
+                else:
+                    dev.hs_script = [("drop",), ("drop",), ("genuine", {"delay": 2.5})]
+                    task = asyncio.ensure_future(ac.authenticate(TOKEN, KEY))
+                try:
+                    await task
+                    rec["outcome"] = "frames"
+                except asyncio.CancelledError:
+                    rec["outcome"] = "cancelled"
+                except (TimeoutError, ProtocolError):
+                    rec["outcome"] = "timeout"
+                except BaseException as e:
+                    rec["outcome"] = "timeout" if type(e).__name__ == "AuthenticationError" else "other"
+                    rec["exc"] = repr(e)
+                await asyncio.sleep(1.0)        # (the late handshake reply arrives meanwhile)
+                dev.hs_script = []
+                rec["dt"] = round(loop.time() - t0, 3)
+                out["exchanges"].append(rec)
+                continue
             if f == "refuse":
                 dev.connect_script.append("refuse")
             elif f == "hang":
